@@ -330,6 +330,33 @@ func rulesC16(e *Engine, r *Report) {
 		r.Min("R16.2", "instances of the stop-aware send helper", nh, 3)
 	}
 
+	// the stop-aware receive helper
+	{
+		nh := 0
+		for _, fn := range e.FuncsIn("client") {
+			if !strings.HasPrefix(e.ShortName(fn), "client.recvCh[") {
+				continue
+			}
+			nh++
+			cls := labeler(C("dyn(p0)()", "stopSeen"), C("(select#0 == 0)", "received"), C("!select#1", "closed"), C("select#1", "open"))
+			nNil, nVal := 0, 0
+			for _, rw := range e.returnWorlds(r, "R16.2", fn, cls) {
+				rt := rw.In.(*ssa.Return)
+				if e.Canon(rt.Results[0]) == "nil" {
+					nNil++
+					r.Check(rw.W.Has("stopSeen") || rw.W.HasAll("received", "closed"), "R16.2", e.ShortName(fn)+": gives up only on the stop predicate or a closed channel "+rw.W.String(), e.InstrPos(rt),
+						"the stop-aware receive returns nothing although neither the predicate held nor the channel was closed (an item would be dropped or the stage leave early)", 1, rw.W.String())
+				} else {
+					nVal++
+					r.Check(rw.W.HasAll("received", "open"), "R16.2", e.ShortName(fn)+": hands out only an item actually received "+rw.W.String(), e.InstrPos(rt), "an item is returned without a successful receive", 1, rw.W.String())
+				}
+			}
+			r.Min("R16.2", e.ShortName(fn)+": nil returns", nNil, 2)
+			r.Min("R16.2", e.ShortName(fn)+": item returns", nVal, 1)
+		}
+		r.Min("R16.2", "instances of the stop-aware receive helper", nh, 1)
+	}
+
 	// ---------------------------------------------------------------- R16.3
 	r.Rule("R16.3", "every stage function releases its WaitGroup: the first deferred call of each function started through start() is wg.Done() on its own parameter")
 	for _, st := range stages {
